@@ -43,7 +43,10 @@ def check_equiv(case):
 def check_single(case):
     n = case["n"]
     fails = []
-    st, gens = mk(n, case["strings"], case.get("fmt", "strings+sign"))
+    try:
+        st, gens = mk(n, case["strings"], case.get("fmt", "strings+sign"))
+    except Exception as e:  # noqa: BLE001
+        return [(f"ctor/raised:{type(e).__name__}", f"Stabilizer() raised {type(e).__name__}({e}) for the valid stabilizer {case['strings']}", {})]
     span = pauli.span_xz(gens)
     # expansion
     try:
